@@ -360,6 +360,33 @@ pub fn check_search(l: &mut Local, which: Which, zm: &crate::model::zone::ZoneMo
             if !okp(&e, &want_e) || !okp(&la, &want_l) {
                 l.violation("mktime: earliest()/latest() are not the first/last result", input(), format!("{:?} / {:?}", want_e.map(|d| facade::fmt_dt(&d)), want_l.map(|d| facade::fmt_dt(&d))), format!("{:?} / {:?}", e.map(|d| facade::fmt_dt(&d)), la.map(|d| facade::fmt_dt(&d))));
             }
+            // the same selectors through the buffer-based search on a buffer still holding the entries of earlier
+            // searches: stale entries beyond the reported ones must not be seen
+            {
+                let mut buf: Vec<Option<FoundDateTimeKind>> = (0..got.len() + 2).map(|i| stale.get(i).copied().flatten()).collect();
+                if buf.iter().skip(got.len()).any(|x| x.is_some()) {
+                    l.class("earliest_latest_through_a_reused_buffer");
+                }
+                calls += 1;
+                if let Ok(res) = facade::find_n(&mut buf, q.y, q.mo, q.d, q.h, q.mi, q.s, q.ns, tz) {
+                    let (e2, l2) = (res.earliest(), res.latest());
+                    if !okp(&e2, &want_e) || !okp(&l2, &want_l) {
+                        l.violation(
+                            "mktime: earliest()/latest() of the buffer-based search (re-used buffer) are not the first/last result",
+                            input(),
+                            format!("{:?} / {:?}", want_e.map(|d| facade::fmt_dt(&d)), want_l.map(|d| facade::fmt_dt(&d))),
+                            format!("{:?} / {:?}", e2.map(|d| facade::fmt_dt(&d)), l2.map(|d| facade::fmt_dt(&d))),
+                        );
+                    }
+                }
+                for (i, k) in got.iter().enumerate() {
+                    if i < stale.len() {
+                        stale[i] = Some(*k);
+                    } else {
+                        stale.push(Some(*k));
+                    }
+                }
+            }
             // and they are the true extremes over all instants mentioned
             if let (Some(e), Some(la)) = (e, la) {
                 let min = inst.iter().min().copied().unwrap_or(e.unix_time());
@@ -639,6 +666,7 @@ pub fn run_which(ctx: &Ctx, which: Which) -> Report {
             "gap_and_normal_together",
             "coincident_rule_transitions_near_search",
             "leap_table",
+            "earliest_latest_through_a_reused_buffer",
         ],
         Which::C17 => vec!["k=0", "k=1", "k=2", "k>=3", "buffer_empty", "buffer_smaller_than_k", "buffer_larger_than_k", "stale_slot_preserved", "error_case"],
     };
